@@ -6,6 +6,7 @@ mod engine;
 mod hist;
 mod model;
 mod props;
+mod wrap;
 
 use engine::Tier;
 
